@@ -1,5 +1,5 @@
 //@ tu: libxcm/tp/tls/xcm_tp_utls.c
-//@ flags: --max-field-sensitivity-array-size 1024 --object-bits 10
+//@ flags: --max-field-sensitivity-array-size 700 --object-bits 10
 //@ enforce: utls_accept
 //@ replace: xcm_tp_socket_accept xcm_tp_socket_close xcm_tp_socket_destroy
 //@ props: C01 C08
